@@ -1,4 +1,26 @@
 //! MiniGluon: the fragment of Gluon shared by the program-level properties (C01, C02, C04, C05,
 //! C07, C12, C16): AST, type-directed generator, Gluon printer, s-expression rendering for the
 //! Coq model, and the reader of implementation values into canonical form.
-//! Owned by the C01 builder; other properties only use it.
+//! Owned by the C01 builder; other properties only use it.  See `README.md` in this directory.
+//!
+//! ```no_run
+//! use gvh::mg::{self, ast::Program, generate::GenConfig, print::Style};
+//! let mut rng = gvh::rng::Rng::new(1);
+//! let vm = mg::run::new_vm();                          // prelude off, `mg.prim.eff` registered
+//! let p: Program = mg::generate::gen_program(&mut rng, &GenConfig::default());
+//! let src = mg::print::to_gluon(&p, &Style::layout()); // Gluon source text
+//! let line = mg::sexp::program_to_sexp(&p);            // one line for the Coq model driver
+//! let out = mg::run::run_program(&vm, &p, &src);       // Outcome::Val(value, log) | Outcome::Err(kind, log)
+//! println!("{}", out.canonical());                     // (val (int 3) (log 1 2)) | (err arith (log))
+//! ```
+//!
+//! Modules: [`ast`] (Expr, Pat, Lit, Ty, TypeDecl, Program), [`generate`] (random generator,
+//! exhaustive enumerator, shrink candidates), [`print`] (`to_gluon`, `Style`), [`sexp`]
+//! (`program_to_sexp`), [`run`] (`new_vm`, `run`, `run_program`, `Outcome`, `ErrKind`),
+//! [`value`] (`canon`, `canon_typed`).
+pub mod ast;
+pub mod generate;
+pub mod print;
+pub mod run;
+pub mod sexp;
+pub mod value;
